@@ -53,11 +53,19 @@ def make_scan(case):
 def make_detector(case):
     from abtem import AnnularDetector, PixelatedDetector
 
+    from abtem import FlexibleAnnularDetector, SegmentedDetector
+
     d = case["detector"]
     if d == "waves":
         return None
     if d == "annular":
         return AnnularDetector(5, 18)
+    if d == "flexible":
+        return FlexibleAnnularDetector(step_size=2.0, inner=2.0, outer=20.0)
+    if d == "segmented":
+        return SegmentedDetector(nbins_radial=2, nbins_azimuthal=3, inner=4.0, outer=20.0)
+    if d == "multi":
+        return [AnnularDetector(5, 18), PixelatedDetector(max_angle=None)]
     return PixelatedDetector(max_angle=None)
 
 
@@ -72,6 +80,8 @@ def smatrix(case, pot):
 def arr(m, lazy):
     if lazy:
         m = m.compute()
+    if isinstance(m, (list, tuple)):  # several detectors: one flat vector, in detector order
+        return np.concatenate([np.asarray(x.array).reshape(-1) for x in m])
     return np.asarray(m.array)
 
 
@@ -133,8 +143,11 @@ def gen_interp1(ctx: Ctx):
     rng = ctx.rng
     c = gen_common(ctx)
     c.update(oracle="interp1", interpolation=[1, 1], potential=rng.choice(["none", "atoms", "atoms", "fp"]),
-             lazy=rng.random() < 0.5, detector=rng.choice(["waves", "waves", "annular", "pixelated"]))
+             lazy=rng.random() < 0.5, detector=rng.choice(["waves", "waves", "annular", "pixelated", "flexible", "segmented", "multi"]))
+    c["nconf"] = rng.randint(2, 3)
     c["scan"] = gen_scan(ctx, c, outside=rng.random() < 0.2)
+    if c["detector"] != "multi" and rng.random() < 0.25:
+        c["ctf_series"] = {"C10": [dyadic(rng, -40, 40, 1) for _ in range(rng.randint(2, 3))]}
     return c
 
 
@@ -146,6 +159,11 @@ def gen_window(ctx: Ctx):
     out = rng.random() < 0.5
     c["scan"] = gen_scan(ctx, c, outside=out, single=rng.random() < 0.5)
     c["outside"] = out
+    # ensemble axes in front of the position axes: frozen phonons (S-matrix ensemble) and/or a CTF parameter series
+    if rng.random() < 0.3:
+        c["potential"] = "fp"
+    if rng.random() < 0.3:
+        c["ctf_series"] = {"C10": [dyadic(rng, -40, 40, 1) for _ in range(rng.randint(2, 3))]}
     return c
 
 
@@ -159,19 +177,32 @@ def reference_interp1(case):
     det = make_detector(case)
     probe = Probe(energy=ENERGY, semiangle_cutoff=case["cutoff"], gpts=tuple(case["gpts"]), extent=tuple(case["cell"][:2]),
                   **case["aberrations"])
-    outs = []
-    for p in singles:
-        if p is None:
-            w = probe.build(scan=scan, lazy=False)
-            m = det.detect(w) if det is not None else w
-        elif det is None:
-            m = probe.multislice(potential=p, scan=scan, lazy=False)
+    series = case.get("ctf_series") or {}
+    nser = len(next(iter(series.values()))) if series else 1
+    per_member = []
+    for j in range(nser):  # one scalar CTF per member of the series: member j of the ensemble == scalar run j
+        abj = dict(case["aberrations"])
+        abj.update({k: v[j] for k, v in series.items()})
+        probe = Probe(energy=ENERGY, semiangle_cutoff=case["cutoff"], gpts=tuple(case["gpts"]), extent=tuple(case["cell"][:2]), **abj)
+        outs = []
+        for p in singles:
+            if p is None:
+                w = probe.build(scan=scan, lazy=False)
+                m = [d.detect(w) for d in det] if isinstance(det, list) else det.detect(w) if det is not None else w
+            elif det is None:
+                m = probe.multislice(potential=p, scan=scan, lazy=False)
+            else:
+                m = probe.scan(potential=p, scan=scan, detectors=det, lazy=False)
+            outs.append(arr(m, False))
+        if case["potential"] != "fp":
+            per_member.append(outs[0])
         else:
-            m = probe.scan(potential=p, scan=scan, detectors=det, lazy=False)
-        outs.append(np.asarray(m.array))
-    if case["potential"] != "fp":
-        return outs[0]
-    return np.stack(outs) if det is None else np.mean(outs, axis=0)
+            per_member.append(np.stack(outs) if det is None else np.mean(outs, axis=0))
+    if not series:
+        return per_member[0]
+    # the CTF axis comes after the frozen-phonon axis (if that axis survives) and before the scan axes
+    st = np.stack(per_member)
+    return np.moveaxis(st, 0, 1) if (case["potential"] == "fp" and det is None) else st
 
 
 def key_interp1(case, shape_mismatch):
@@ -185,7 +216,9 @@ def oracle_interp1(ctx: Ctx, case):
     from abtem import CTF
 
     pot, _ = potentials(case)
-    ctf = CTF(semiangle_cutoff=case["cutoff"], energy=ENERGY, **case["aberrations"])
+    ab = dict(case["aberrations"])
+    ab.update({k: np.array(v, dtype=float) for k, v in (case.get("ctf_series") or {}).items()})
+    ctf = CTF(semiangle_cutoff=case["cutoff"], energy=ENERGY, **ab)
     got = arr(smatrix(case, pot).reduce(scan=make_scan(case), ctf=ctf, detectors=make_detector(case), lazy=case["lazy"]),
               case["lazy"])
     exp = reference_interp1(case)
@@ -233,8 +266,11 @@ def near_half(case, sa, scan):
 def oracle_window(ctx: Ctx, case):
     from abtem import CTF, Probe
 
-    pot, _ = potentials(case)
-    ctf = CTF(semiangle_cutoff=case["cutoff"], energy=ENERGY, **case["aberrations"])
+    pot, singles = potentials(case)
+    series = case.get("ctf_series") or {}
+    ab = dict(case["aberrations"])
+    ab.update({k: np.array(v, dtype=float) for k, v in series.items()})
+    ctf = CTF(semiangle_cutoff=case["cutoff"], energy=ENERGY, **ab)
     scan = make_scan(case)
     sm = smatrix(case, pot)
     sa = sm.build(lazy=False)
@@ -243,17 +279,38 @@ def oracle_window(ctx: Ctx, case):
         ctx.boundary += 1
         return None
     where = "outside" if case.get("outside") else "inside"
+    ensemble = case["potential"] == "fp" or bool(series)
+    if ensemble:
+        where += ":ensemble"
     try:
         got = arr(sm.build(lazy=case["lazy"]).reduce(scan=scan, ctf=ctf), case["lazy"])
     except Exception as e:  # noqa
         ctx.violation(f"window-crop-raises:{where}-cell", case, {"what": "SMatrixArray.reduce raised", "error": f"{type(e).__name__}: {e}"[:300]})
         return float("inf")
-    exp, corners = expected_windows(case, sa, ctf, scan)
+    if ensemble:
+        # member (configuration i, CTF j) of the ensemble == the scalar run with configuration i and CTF j
+        nser = len(next(iter(series.values()))) if series else 1
+        members = []
+        for p1 in singles:
+            sa1 = smatrix(case, p1).build(lazy=False)
+            for j in range(nser):
+                abj = dict(case["aberrations"])
+                abj.update({k: v[j] for k, v in series.items()})
+                ctfj = CTF(semiangle_cutoff=case["cutoff"], energy=ENERGY, **abj)
+                ctfj.grid.match(sa1.dummy_probes())
+                members.append(expected_windows(case, sa1, ctfj, scan)[0])
+        lead = ((len(singles),) if case["potential"] == "fp" else ()) + ((nser,) if series else ())
+        exp = np.array(members).reshape(lead + members[0].shape)
+        corners = None
+    else:
+        exp, corners = expected_windows(case, sa, ctf, scan)
     d = rel(got, exp)
     if not d <= TOL:
         ctx.violation(f"window-crop-wrong:{where}-cell", case,
                       {"what": "reduced window differs from the wrapped window of the full superposition", "rel_linf": d,
                        "shape_reduce": list(got.shape), "shape_expected": list(exp.shape)})
+        return d
+    if ensemble:
         return d
     # one position at a time gives the same windows as the batch (the crop of one probe does not depend on the others)
     if scan.shape and int(np.prod(scan.shape)) > 1:
@@ -291,8 +348,20 @@ class C06(Property):
     id = "C06"
     props_file = "AbtemVerif/Props/C06.lean"
     drive_file = "AbtemVerif/Drive/C06.lean"
-    trusted = []
-    assumptions = []
+    trusted = [
+        "FFT: numpy/pyFFTW fft2/ifft2 form a FourierPair; plane_waves(k)/N is F^-1 delta_k (proved for Mathlib's ZMod.dft, 1-D and 2-D zmodPair2); "
+        "the identification of PRISM wave vectors with grid frequencies (frequency <-> index assignment of fftfreq) is validated by the conformance oracle only",
+        "pointwise reading of array expressions by the translator: broadcasting, tensordot over the wave-vector axis, moveaxis, dask blocking are covered by "
+        "correspondence (K-plane _reduce_to_waves, batch_crop_2d with batch axes) and conformance",
+        "Model/Prism.lean is a hand model of numpy semantics (slice clamping, .size == 0 shortcuts, concatenate, np.pad(mode='wrap'), advanced indexing) "
+        "around generated integer expressions; Model/PrismEnsemble.lean (eager frozen-phonon loop) and its reference are both hand models tied by row correspondence",
+        "the CTF value a_k = aperture * aberration factor at (lambda |k|, atan2(ky, kx)) is taken from CTF._evaluate_from_angular_grid (property C21); "
+        "complex_exponential = exp(i x) (C04); Probe.build's order of operations (C05 probeArray, imported)",
+        "IEEE float32 evaluation (oracle tolerance 2e-5 of the array maximum); window corners within 1e-3 px of a rounding tie are not compared numerically "
+        "(they are compared exactly in unit correspondence: mincrop 'tie' bucket)",
+    ]
+    assumptions = ["downsample=False (S-matrix downsampling not modelled, not exercised)", "no exit planes on the S-matrix potential", "orthogonal cells",
+                   "GPU paths and the commented-out rechunk reduction schemes are not exercised"]
 
     def correspondence(self, ctx: Ctx):
         from abtem.prism.utils import minimum_crop, plane_waves, wrapped_crop_2d, wrapped_slices
@@ -387,6 +456,30 @@ class C06(Property):
                 add(f"expect {n0} {n1} {w[0]} {w[1]} " + listlist_s([p], rat_s), "expectedWindow(spec)", dict(case, i=i),
                     ["ok", ref.reshape(-1).tolist()])
             ctx.count(f"reduce_to_waves:{'far' if far else 'in-cell'}:{shape}:npos={len(pix)}")
+        # 4a. batch_crop_2d with leading batch axes (ensemble axes in front of the positions): member (b, p) uses corner p
+        from abtem.prism.utils import batch_crop_2d
+
+        for _ in range(ctx.n(40, 400)):
+            s0, s1 = rng.randint(2, 7), rng.randint(2, 7)
+            w = (rng.randint(1, s0), rng.randint(1, s1))
+            B = rng.choice([(), (2,), (3,), (2, 2)])
+            P = rng.choice([(1,), (2,), (3,), (2, 2)])
+            nP, nB = int(np.prod(P)), int(np.prod(B)) if B else 1
+            oob = False  # corners are always inside the block in the pipeline (Props/C06 minimumCrop_spec)
+            corners = np.array([[rng.randint(0, s0 - w[0] + (2 if oob else 0)), rng.randint(0, s1 - w[1])] for _ in range(nP)]).reshape(P + (2,))
+            base = np.arange(s0 * s1).reshape(s0, s1)
+            a = np.stack([base + 1000 * q for q in range(nB * nP)]).reshape(B + P + (s0, s1))
+            case = dict(fn="batch_crop_2d", block=[s0, s1], w=list(w), batch=list(B), positions=list(P), corners=corners.reshape(-1, 2).tolist())
+            try:
+                r = np.asarray(batch_crop_2d(a, corners, w)).reshape((nB * nP,) + w)
+                impl = ["ok"] + [(r[q] - 1000 * q).reshape(-1).tolist() for q in range(nB * nP)]
+            except Exception as e:  # noqa
+                impl = ["err", err_kind(e)]
+            for q in range(nB * nP):
+                c0, c1 = corners.reshape(-1, 2)[q % nP]
+                add(f"bcrop {s0} {s1} {w[0]} {w[1]} {c0} {c1}", "batch_crop_2d", dict(case, member=q),
+                    impl if impl[0] == "err" else ["ok", impl[1 + q]])
+            ctx.count(f"batch_crop_2d:batch={len(B)}d:pos={len(P)}d:{'oob' if oob else 'in'}")
         # 4b. the same call site with K planes and integer coefficients per position (crop, tensordot, batch crop in the code's order)
         for _ in range(ctx.n(30, 300)):
             f0, f1 = rng.choice([(2, 2), (2, 1), (1, 2), (3, 3)])
@@ -530,11 +623,12 @@ class C06(Property):
     def conformance(self, ctx: Ctx):
         # every (potential, evaluation mode, detector class) combination at least once, then random extra cases
         combos = [(p, lazy, d) for p in ("none", "atoms", "fp") for lazy in (False, True) for d in ("waves", "measurement")]
-        for i in range(ctx.n(14, 160)):
+        for i in range(ctx.n(24, 200)):
             c = gen_interp1(ctx)
             if i < len(combos):
+                c.pop("ctf_series", None)
                 p, lazy, d = combos[i]
-                c.update(potential=p, lazy=lazy, detector="waves" if d == "waves" else ctx.rng.choice(["annular", "pixelated"]))
+                c.update(potential=p, lazy=lazy, detector="waves" if d == "waves" else ctx.rng.choice(["annular", "pixelated", "flexible", "segmented", "multi"]))
                 if p == "fp" and d != "waves" and not lazy:
                     # measurements without base axes on a custom scan: the un-squeezed ensemble axis of ArrayObject.squeeze lived here
                     a, b = c["cell"][0], c["cell"][1]
@@ -542,8 +636,16 @@ class C06(Property):
                                                                for _ in range(2)])
                     c["detector"] = "annular"
             self.run_oracle(ctx, c)
-        for i in range(ctx.n(12, 160)):
+        for i in range(ctx.n(20, 200)):
             c = gen_window(ctx)
+            if i < 4:  # ensemble axes in front of several positions, eager and lazy
+                c["scan"] = gen_scan(ctx, c, outside=(i % 2 == 1), single=False)
+                c["scan"] = c["scan"] if c["scan"]["kind"] != "custom" or len(c["scan"]["positions"]) > 1 else dict(
+                    kind="custom", positions=c["scan"]["positions"] + [[0.5, 0.75]])
+                c["outside"] = (i % 2 == 1)
+                c["potential"] = "fp" if i < 2 else c["potential"] if c["potential"] != "fp" else "atoms"
+                c["ctf_series"] = {"C10": [10.0, -25.0, 30.5]} if i >= 2 else None
+                c["lazy"] = (i in (1, 3))
             self.run_oracle(ctx, c)
 
     def run_oracle(self, ctx: Ctx, c):
